@@ -19,6 +19,6 @@ if [ "$DEMO" != "-" ]; then
   (cd $(dirname $DEMO) && PYTHONPATH=$W timeout 900 /venv/bin/python $DEMO >/dev/null 2>&1); echo "demo with patch: exit $?"
 fi
 for ID in "$@"; do
-  (cd $T/verif && VERIF_REPO=$W VERIF_NOEVIDENCE=1 ./check $ID --tier ${TIER:-quick} > $T/$ID.log 2>&1; echo "$ID rc=$?"; grep -E "^(VIOLATION|OK|KNOWN)|^  [a-zA-Z]" $T/$ID.log | cut -c1-300 | head -8)
+  (cd $T/verif && VERIF_REPO=$W VERIF_NOEVIDENCE=1 ./check $ID --tier ${TIER:-quick} > $T/$ID.log 2>&1; echo "$ID rc=$?"; grep -E "^(VIOLATION|OK |KNOWN)|^  [A-Za-z0-9:_@.<>+-]+: " $T/$ID.log | grep -v "^  [a-z_0-9]* = " | cut -c1-300 | head -12)
 done
 git -C $W reset -q --hard; git -C $W clean -fdq
